@@ -70,6 +70,18 @@ fn shape_case(ctx: &Ctx, rep: &mut Report, case: u64, g: &mut Sm64) {
         rep.violation("init_with_seed not-pure", mon, case, cj);
         return;
     }
+    if case % 16 == 0 {
+        // pure also when called from several threads at once
+        let hs: Vec<_> = (0..4).map(|_| std::thread::spawn(move || { let v: Vec<Vec<f64>> = init_with_seed(n, d, seed); img64(&v) })).collect();
+        let base = img64(&a);
+        for h in hs {
+            if h.join().map(|v| v != base).unwrap_or(true) {
+                rep.violation("init_with_seed not-pure (concurrent calls)", mon, case, cj);
+                return;
+            }
+        }
+        rep.count("concurrent_purity_checks");
+    }
     if img64(&det) != img64(&s42) {
         rep.violation("init_det differs-from-init_with_seed(42)", mon, case, cj);
         return;
